@@ -203,6 +203,9 @@ func c12ConvergeLate(witness, late bool) {
 	exit := verif_choose(nw.n)
 	prefix := &net.IPNet{IP: net.IP{10, verif_nondet_u8(), 0, 0}, Mask: net.CIDRMask(16, 32)}
 	nw.rm[exit].AddLocalRoute(prefix, 0)
+	// the exit also originates a longer prefix with the same base address
+	prefix2 := &net.IPNet{IP: prefix.IP, Mask: net.CIDRMask(24, 32)}
+	nw.rm[exit].AddLocalRoute(prefix2, 0)
 	// a second agent may advertise the same prefix (redundant exits)
 	exit2 := exit
 	if !late && c12Announcers > 1 {
@@ -241,6 +244,12 @@ func c12ConvergeLate(witness, late bool) {
 		nw.fl[li].SendFullTable(fID(lj))
 		nw.fl[lj].SendFullTable(fID(li))
 		c12Run(nw)
+		// what one end of the new link knew of the exit's routes, the other end knows now
+		for _, p := range []*net.IPNet{prefix, prefix2} {
+			ha := li == exit || nw.rm[li].Table().HasRoute(p, fID(exit))
+			hb := lj == exit || nw.rm[lj].Table().HasRoute(p, fID(exit))
+			verif_assert(ha == hb, "C12/route-not-learned-from-the-full-table-replay")
+		}
 		// the next periodic announcement of every announcer (an agent's own presence is
 		// not part of a replay; it reaches a new component with the next announcement)
 		for i := 0; i < nw.n; i++ {
@@ -276,6 +285,9 @@ func c12ConvergeLate(witness, late bool) {
 			if e != x {
 				verif_assert(nw.rm[x].Table().HasRoute(prefix, fID(e)), "C12/advertised-route-not-learned")
 			}
+		}
+		if x != exit {
+			verif_assert(nw.rm[x].Table().HasRoute(prefix2, fID(exit)), "C12/advertised-route-not-learned")
 		}
 		if x == exit || x == exit2 {
 			continue
